@@ -134,6 +134,39 @@ func genC18Registry(r *Rng) *Scenario {
 			sc.Files = sc.Files[:len(sc.Files)-1]
 		}
 	}
+	// dot files and dot directories next to (and as) templates
+	if r.Chance(35) {
+		sub := Pick(r, []string{"pages/", "blog/", ""})
+		add(sub+Pick(r, []string{".gitkeep", ".DS_Store", ".env"}), "x", "other")
+		if r.Chance(50) {
+			rel := sub + ".hidden"
+			add(rel+ext, fmt.Sprintf("<p>FILE[%s] {{ n1 }}</p>", rel), "page")
+			ex.Names = append(ex.Names, rel)
+			ex.Plain[rel] = root + "/" + rel + ext
+		}
+		if r.Chance(50) {
+			rel := sub + ".cache/x"
+			add(rel+ext, fmt.Sprintf("<p>FILE[%s] {{ n1 }}</p>", rel), "page")
+			ex.Names = append(ex.Names, rel)
+			ex.Plain[rel] = root + "/" + rel + ext
+		}
+		rel := sub + "zlast"
+		if !seen[rel+ext] {
+			add(rel+ext, fmt.Sprintf("<p>FILE[%s] {{ n1 }}</p>", rel), "page")
+			ex.Names = append(ex.Names, rel)
+			ex.Plain[rel] = root + "/" + rel + ext
+		}
+		ex.Adversary = true
+	}
+	// a file WITHOUT reserves that another page pulls in with @use: it declares no reserve, so it
+	// stays renderable under its own name, whether it sorts before or after its user
+	if r.Chance(30) {
+		user := Pick(r, []string{"aa_user", "zz_user"})
+		add("shared/shell"+ext, "<div>SHELL {{ n1 }}</div>", "page")
+		add(user+ext, `@use("shared/shell")`+"\n<p>ignored</p>", "page")
+		ex.Names = append(ex.Names, "shared/shell", user)
+		ex.Plain["shared/shell"] = root + "/shared/shell" + ext
+	}
 	// a layout and a page using it
 	if r.Chance(60) {
 		add("layouts/main"+ext, `<html>@reserve("content")</html>`, "layout")
@@ -599,7 +632,7 @@ func (p c18) Run(seed uint64, run int, tier string, acc *Acc) *Violation {
 		return nil
 	}
 	// fault enumeration on a healthy tree
-	t := GenTree(r, TreeOpts{Pages: r.Range(1, 3), Depth: 1, Ext: Pick(r, []string{".tw", ".tw.html"}), NoBig: true})
+	t := GenTree(r, TreeOpts{Pages: r.Range(1, 3), Depth: 1, Ext: Pick(r, []string{".tw", ".tw.html"}), NoBig: true, LayoutComp: r.Chance(50)})
 	base := &Scenario{Prop: "C18", Family: "faults", Cwd: t.Cwd, Files: t.Clean(), Seed: seed, Run: run}
 	base.Ops = []Op{t.LoadOp()}
 	EventLog = base.Hash()
